@@ -267,15 +267,8 @@ func checkC15(p *Prog, r *Report) {
 				found := false
 				ast.Inspect(n, func(x ast.Node) bool {
 					if s, ok := x.(*ast.SendStmt); ok && p.IsField(s.Chan, "tcpPacketConn.recvChan") {
-						if cl, ok := unparen(s.Value).(*ast.CompositeLit); ok && len(cl.Elts) >= 2 {
-							first := cl.Elts[0]
-							raddr := cl.Elts[1]
-							if kv, ok := first.(*ast.KeyValueExpr); ok {
-								first = kv.Value
-							}
-							if kv, ok := raddr.(*ast.KeyValueExpr); ok {
-								raddr = kv.Value
-							}
+						if cl := p.LitOf(lit, s.Value); cl != nil && p.LitField(cl, "Data") != nil && p.LitField(cl, "RAddr") != nil {
+							first, raddr := p.LitField(cl, "Data"), p.LitField(cl, "RAddr")
 							if id, ok := unparen(first).(*ast.Ident); ok && p.ObjOf(id) == p.paramObj(addConn, 1) {
 								if c, ok := unparen(raddr).(*ast.CallExpr); ok && p.CalleeName(c) == "net.Conn.RemoteAddr" {
 									found = true
@@ -750,15 +743,12 @@ func checkC15(p *Prog, r *Report) {
 				ok = false
 				continue
 			}
-			cl, isCL := unparen(c.Args[0]).(*ast.CompositeLit)
-			if !isCL || len(cl.Elts) < 2 {
+			cl := p.LitOf(f, c.Args[0])
+			if cl == nil || p.LitField(cl, "RAddr") == nil {
 				ok = false
 				continue
 			}
-			ra := cl.Elts[1]
-			if kv, isKV := ra.(*ast.KeyValueExpr); isKV {
-				ra = kv.Value
-			}
+			ra := p.LitField(cl, "RAddr")
 			rc, isC := unparen(ra).(*ast.CallExpr)
 			if !isC || p.CalleeName(rc) != "net.Conn.RemoteAddr" || !p.isConnParam(f, unparen(rc.Fun).(*ast.SelectorExpr).X) {
 				ok = false
